@@ -6,8 +6,10 @@ Bounded-exhaustive exploration of the REAL collectors:
   (``Thread.start`` of the GC thread is replaced by a direct call of its ``run``) on a scratch
   ``$XONSH_DATA_DIR`` whose history files are written with the real LazyJSON writer in exactly the
   layout a real session leaves behind (self-checked against ``JsonHistory`` + ``flush(at_exit=True)``),
-  under a virtual ``time.time`` and a virtual boot time (names rebound inside ``xonsh.history.json``
-  only).  Every collection of <= N files x command counts {0,1,2,3} x locked flag x corrupt member
+  under a virtual ``time.time`` (rebound inside ``xonsh.history.json`` only) and the REAL
+  ``xonsh.xoreutils.uptime.boottime()`` reading the clocks of a simulated machine (``time`` / ``open``
+  rebound inside that module only: booted at B, suspended 1 h since; see _SimMachine), so a lock is
+  judged stale against the real boot instant B whatever source the boot time is computed from.  Every collection of <= N files x command counts {0,1,2,3} x locked flag x corrupt member
   {none, empty file, truncated JSON} x equal-timestamp pattern x boot position (stale locks) x unit
   {files, commands, s, b} x every boundary value of the limit x force {F,T}.
 * every truncation length of a genuine history file as the corrupt member;
@@ -191,11 +193,65 @@ class _VTime:
             self.hook()
 
 
-class _VUptime:
-    boot = 0.0
+class _SimMachine:
+    """The ``time`` module (and ``open``) of a simulated machine, rebound inside xonsh.xoreutils.uptime ONLY,
+    so that the boot time the collector compares session starts with comes from the REAL
+    ``uptime.boottime()`` -> ``_boot_time_linux()``: wall clock W, booted at B, suspended for S seconds
+    since (CLOCK_BOOTTIME = W - B counts the suspended time, CLOCK_MONOTONIC = W - B - S does not).
+    source: which of the module's Linux sources is available -
+      'clock_boottime'  time.CLOCK_BOOTTIME exists (every Linux CPython >= 3.7; the branch reached here)
+      'proc_stat'       no CLOCK_BOOTTIME -> 'btime' line of /proc/stat
+      'monotonic'       neither -> boottime()'s last resort time.time() - CLOCK_MONOTONIC (cannot know S;
+                        only exercised with S = 0)"""
 
-    def boottime(self):
-        return self.boot
+    CLOCK_MONOTONIC = 1
+    _BOOTTIME_ID = 7
+
+    def __init__(self):
+        self.W, self.B, self.S, self.source = NOW, 0.0, 3600.0, "clock_boottime"
+        self.clock_ids = set()
+
+    def __getattr__(self, name):  # only consulted for attributes that do not exist
+        if name == "CLOCK_BOOTTIME" and self.source == "clock_boottime":
+            return self._BOOTTIME_ID
+        raise AttributeError(name)
+
+    def time(self):
+        return self.W
+
+    def clock_gettime(self, cid):
+        self.clock_ids.add((self.source, cid))
+        if cid == self._BOOTTIME_ID and self.source == "clock_boottime":
+            return self.W - self.B
+        if cid == self.CLOCK_MONOTONIC:
+            return self.W - self.B - self.S
+        raise OSError(22, "Invalid argument")
+
+    def open(self, path, *a, **k):
+        if path == "/proc/stat" and self.source == "proc_stat":
+            self.clock_ids.add((self.source, "/proc/stat"))
+            return io.StringIO(f"cpu  10 0 10 100 0 0 0 0 0 0\nintr 5\nctxt 9\nbtime {int(self.B)}\nprocesses 3\n")
+        raise FileNotFoundError(2, "No such file or directory", path)
+
+
+class _BootCtl:
+    """`.boot = B` boots the simulated machine at B (and drops uptime.boottime()'s cache)."""
+
+    def __init__(self, sim, real_uptime):
+        self.sim, self.real = sim, real_uptime
+
+    @property
+    def boot(self):
+        return self.sim.B
+
+    @boot.setter
+    def boot(self, value):
+        self.sim.B = value
+        self.real.boottime.cache_clear()
+
+    def machine(self, source="clock_boottime", suspended=3600.0):
+        self.sim.source, self.sim.S = source, suspended
+        self.real.boottime.cache_clear()
 
 
 class _W:  # per-process harness state
@@ -214,9 +270,17 @@ def _init_worker():
     import xonsh.lib.lazyjson as xlj
 
     _W.hj, _W.hsq, _W.xlj = hj, hsq, xlj
-    _W.vt, _W.up, _W.printed = _VTime(), _VUptime(), []
-    hj.time = _W.vt  # virtual clock / boot time: rebound in this module's namespace only
-    hj.uptime = _W.up
+    import xonsh.xoreutils.uptime as real_uptime
+
+    _W.vt, _W.printed = _VTime(), []
+    _W.sim = _SimMachine()
+    _W.up = _BootCtl(_W.sim, real_uptime)
+    hj.time = _W.vt  # virtual clock: rebound in this module's namespace only
+    hj.uptime = real_uptime  # the REAL boot-time code ...
+    real_uptime.time = _W.sim  # ... reading the clocks of a simulated machine (default: suspended for 1 h)
+    real_uptime.open = _W.sim.open
+    if real_uptime._get_boot_time_func() is not real_uptime._boot_time_linux:
+        raise common.ToolError("not the Linux boot-time path")
     hj.print = lambda *a, **k: _W.printed.append(" ".join(str(x) for x in a))
 
     real_gc = getattr(hj, "_xv_real_gc", None) or hj.JsonHistoryGC
@@ -575,6 +639,66 @@ def _check_truncations(item):
     return out
 
 
+# ---------------------------------------------------------------------------- boot-time sources
+
+BOOT_STATES = [("ok", 1, False), ("ok", 2, False), ("ok", 1, True), ("ok", 2, True)]
+# (source, seconds the machine was suspended since boot); the main enumeration runs on ('clock_boottime', 3600)
+MACHINES = [("clock_boottime", 3600.0), ("clock_boottime", 0.0), ("proc_stat", 0.0), ("proc_stat", 3600.0), ("monotonic", 0.0)]
+
+
+def _boot_items(nmax):
+    out = []
+    for n in range(1, nmax + 1):
+        for states in itertools.product(BOOT_STATES, repeat=n):
+            if any(s[2] for s in states):
+                for mask in range(0, 1 << (n - 1)):
+                    out.append((states, mask))
+    return out
+
+
+def _check_boot_sources(item):
+    """Locked members x every boot position, with the boot time produced by each source the real
+    uptime module has on Linux, on a machine that was / was not suspended: a lock is stale only if its
+    session started before the REAL boot."""
+    states, mask = item
+    out = {"evals": 0, "nontrivial": 0, "viols": [], "boot_source_runs": 0, "boot_paths": []}
+    seen = {}
+    _clean_histdir()
+    files, top = _materialise(states, mask, 0)
+    try:
+        for source, susp in MACHINES:
+            _W.up.machine(source, susp)
+            for pos in _boot_positions(files, top, "all"):
+                boot = _boot_value(top, pos)
+                for unit in UNITS:
+                    for limit in _limits(files, boot, unit, False):
+                        for force in (True, False):
+                            _materialise(states, mask, 0)
+                            deleted, crash, refused = _gc_json((limit, unit), force, boot)
+                            out["evals"] += 1
+                            out["boot_source_runs"] += 1
+                            out["nontrivial"] += pos > 0
+                            bad = _judge(files, boot, unit, limit, force, deleted, crash, refused)
+                            if bad:
+                                key = f"json-boot:{bad[0]}:{source}:suspended={int(susp)}s"
+                                if key not in seen:
+                                    seen[key] = {
+                                        "key": key,
+                                        "clause": bad[0],
+                                        "case": _case(states, mask, pos, 0, unit, limit, force, machine=[source, susp]),
+                                        "observed": {"deleted": sorted(deleted), "crash": crash, "refusal_warning": refused, "boottime()": _W.hj.uptime.boottime()},
+                                        "expected": {"acceptable_deletion_sets": bad[1], "real_boot": boot},
+                                        "note": _describe(files, boot) + f"; boot-time source {source}, machine suspended {susp:g} s since boot",
+                                        "n": 0,
+                                    }
+                                seen[key]["n"] += 1
+    finally:
+        out["boot_paths"] = sorted(f"{src}:{cid}" for src, cid in _W.sim.clock_ids)
+        _W.up.machine()
+    out["viols"] = list(seen.values())
+    return out
+
+
 # ---------------------------------------------------------------------------- spellings of the limit
 
 _MULT = {  # independent table of what the documented unit names mean (None = convention, range-checked)
@@ -775,7 +899,7 @@ def _dispatch(work):
     from . import c14_live
 
     kind, item = work
-    fn = {"coll": _check_collection, "trunc": _check_truncations, "spell": _check_spellings, "sqlite": _check_sqlite,
+    fn = {"coll": _check_collection, "trunc": _check_truncations, "spell": _check_spellings, "sqlite": _check_sqlite, "boot": _check_boot_sources,
           "live": c14_live.check_sequences, "startup": c14_live.check_startup}[kind]  # fmt: skip
     return fn(item)
 
@@ -784,8 +908,9 @@ def _merge(ctx, results, totals):
     for r in results:
         totals["evals"] += r["evals"]
         totals["nontrivial"] += r["nontrivial"]
-        for k in ("refusals", "deletions", "spellings", "live_sequences", "startup_runs"):
+        for k in ("refusals", "deletions", "spellings", "live_sequences", "startup_runs", "boot_source_runs"):
             totals[k] = totals.get(k, 0) + r.get(k, 0)
+        totals.setdefault("boot_paths", set()).update(r.get("boot_paths", ()))
         for v in r["viols"]:
             n = v.pop("n", 1)
             v["note"] = (v.get("note") or "") + f" [{n} failing limit/force combination(s) for this collection]"
@@ -803,7 +928,7 @@ def run(ctx):
         masks_mode = lambda n: "all" if n <= 4 else "distinct"  # noqa: E731
         narrow_corrupt = lambda n: n >= 5  # noqa: E731
         sqlite_all_orders = 5
-        live_depths, startup_nmax = (4, 4), 3
+        live_depths, startup_nmax, boot_nmax = (4, 4), 3, 3
     else:
         nmax = 4
         _CFG = {n: {"boots": "all", "pads": (0, 1), "rich": True} for n in range(0, 3)}
@@ -813,7 +938,7 @@ def run(ctx):
         masks_mode = lambda n: "all" if n <= 3 else "distinct"  # noqa: E731
         narrow_corrupt = lambda n: n >= 3  # noqa: E731
         sqlite_all_orders = 4
-        live_depths, startup_nmax = (3, 4), 2
+        live_depths, startup_nmax, boot_nmax = (3, 4), 2, 2
     from . import c14_live
 
     seqs = c14_live.sequences(*live_depths)
@@ -834,7 +959,8 @@ def run(ctx):
     # one heterogeneous work list -> one set of workers (each loads one xonsh session)
     work = (
         [("sqlite", it) for it in sq_items] + [("spell", c) for c in _MULT] + [("trunc", it) for it in tr_items]
-        + [("live", it) for it in live_items] + [("startup", it) for it in st_items] + [("coll", it) for it in colls]
+        + [("live", it) for it in live_items] + [("startup", it) for it in st_items] + [("boot", it) for it in _boot_items(boot_nmax)]
+        + [("coll", it) for it in colls]
     )  # fmt: skip
     res = common.pmap(_dispatch, work, ctx.jobs, chunk=4, init=_init_worker, seed=ctx.seed)
     totals = {"evals": 0, "nontrivial": 0}
@@ -845,12 +971,12 @@ def run(ctx):
     json_runs = totals["evals"]
     _merge(ctx, [r for (k, _), r in zip(work, res) if k in ("trunc", "spell")], aux_tot)
     _merge(ctx, [r for (k, _), r in zip(work, res) if k == "sqlite"], sq_tot)
-    _merge(ctx, [r for (k, _), r in zip(work, res) if k in ("live", "startup")], aux_tot)
-    for k in ("evals", "nontrivial", "spellings", "live_sequences", "startup_runs"):
+    _merge(ctx, [r for (k, _), r in zip(work, res) if k in ("live", "startup", "boot")], aux_tot)
+    for k in ("evals", "nontrivial", "spellings", "live_sequences", "startup_runs", "boot_source_runs"):
         totals[k] = totals.get(k, 0) + aux_tot.get(k, 0)
     ctx.log(
         f"json GC runs: {json_runs} (+{aux_tot['evals']} truncation/spelling/live/start-up; {totals.get('live_sequences', 0)} live sequences, "
-        f"{totals.get('startup_runs', 0)} start-up handshakes), sqlite runs: {sq_tot['evals']}"
+        f"{totals.get('startup_runs', 0)} start-up handshakes, {totals.get('boot_source_runs', 0)} boot-source runs), sqlite runs: {sq_tot['evals']}"
     )
     ctx.sample({"live_session_sequence": [list(e) for e in seqs[len(seqs) // 2]]})
     for it in common.pick_samples(colls, ctx.seed, 6):
@@ -879,7 +1005,11 @@ def run(ctx):
         sqlite_runs=sq_tot["evals"],
         live_session_sequences=totals.get("live_sequences", 0),
         startup_handshake_runs=totals.get("startup_runs", 0),
+        boot_source_runs=totals.get("boot_source_runs", 0),
+        boot_time_paths_reached=sorted(totals.get("boot_paths", set()) | aux_tot.get("boot_paths", set())),
         bounds={
+            "boot_time": "real xonsh.xoreutils.uptime.boottime() on a simulated machine; every run: CLOCK_BOOTTIME source, suspended 3600 s; "
+            f"collections of <= {boot_nmax} files with a locked member additionally on {MACHINES}",
             "live_sequence_depth": list(live_depths),
             "startup_collection_max_files": startup_nmax,
             "max_files": nmax,
@@ -905,6 +1035,8 @@ def run(ctx):
         "history files carry timestamps not later than the (virtual) current time; limits are >= 0",
         "the history directory is not modified concurrently while the collector runs (single collector, run synchronously)",
         "unreadable members are modelled by an empty file and by every truncation of a genuine file",
+        "boot time: Linux path of xonsh.xoreutils.uptime (CLOCK_BOOTTIME branch of _boot_time_linux is the one reached; /proc/stat btime and, for a "
+        "never-suspended machine only, the time()-CLOCK_MONOTONIC last resort are covered by hiding the earlier sources); session starts are >= 5 s away from the boot instant",
     ]
     ctx.notes.append(
         "refuse-unless-forced: the code refuses when discarded >= limit (xonsh/history/json.py `size_over < hsize`), the statement says "
@@ -959,13 +1091,15 @@ def _replay(rec):
     _clean_histdir()
     files, top = _materialise(states, case["ties"], case["pad"], cut=case.get("cut"))
     boot = _boot_value(top, case["boot_pos"])
+    if "machine" in case:
+        _W.up.machine(*case["machine"])
     size = (case["limit"], case["unit"])
     if "spelled" in case:
         size = case["spelled"] if isinstance(case["spelled"], (str, int)) else tuple(case["spelled"])
     deleted, crash, refused = _gc_json(size, case["force"], boot, via_env=case.get("via_env", False))
     acc, label = accept_sets(files, boot, case["unit"], case["limit"], case["force"])
     print(_describe(files, boot))
-    print(f"virtual now={NOW:g} boot={boot:g}; run_gc(size={size!r}, force={case['force']})")
+    print(f"virtual now={NOW:g} real boot={boot:g}, machine: source={_W.sim.source} suspended={_W.sim.S:g}s -> uptime.boottime()={_W.hj.uptime.boottime():g}; run_gc(size={size!r}, force={case['force']})")
     print("observed deleted :", sorted(deleted), "| crash:", crash, "| refusal warning printed:", refused)
     print("expected deletion set, one of:", sorted(sorted(a) for a in acc), f"({label})")
     return 1 if (crash or deleted not in acc) else 0
